@@ -86,7 +86,9 @@ func c15Run(args []string) (string, [][2]string) {
 		fakews.SetLatency(time.Millisecond)
 		a := hubx.NewNode("A", 0, 4711)
 		b := hubx.NewNode("B", 1, 4712)
-		switch args[0] {
+		// "<state>/fast": the operations follow each other within 10 ms (inside the 500 ms close and notification delays)
+		state, fast := strings.CutSuffix(args[0], "/fast")
+		switch state {
 		case "none":
 			a.Start()
 		case "visible":
@@ -114,7 +116,11 @@ func c15Run(args []string) (string, [][2]string) {
 		markB := len(b.App.Log)
 		for i := 1; i+1 < len(args); i += 2 {
 			c15Apply(a, args[i], spell(b.SKI, args[i+1]), &obs)
-			simrt.RunFor(time.Second)
+			if fast {
+				simrt.RunFor(10 * time.Millisecond)
+			} else {
+				simrt.RunFor(time.Second)
+			}
 		}
 		simrt.RunFor(30 * time.Second)
 		// observation: what A's application saw (SKIs normalised), what B saw, sockets, trust, dials, counters
@@ -202,11 +208,16 @@ func c15Cases(r *hx.Run) []c15case {
 		}
 		for _, o1 := range c15Ops {
 			for _, o2 := range c15Ops {
-				if !r.Thorough() && !(o1 == "register" || o2 == "register" || o1 == "unregister") {
+				query := o2 == "detail" || o2 == "service"
+				if !r.Thorough() && !(o1 == "register" || o2 == "register" || o1 == "unregister" || query) {
 					continue
 				}
 				for _, cb := range combos {
 					out = append(out, c15case{st, []string{o1, o2}, []string{cb[0], cb[1]}})
+				}
+				// the second operation hits the window in which the first is still taking effect
+				if query || r.Thorough() {
+					out = append(out, c15case{st + "/fast", []string{o1, o2}, []string{"canon", "upper-dashes"}})
 				}
 			}
 		}
